@@ -4,7 +4,7 @@ from __future__ import annotations
 import itertools
 
 from . import gen
-from .common import REPO, Batch, Result, canon_json, conv_tree, fl, load_corpus, raw_parse, render_doc, rng_for
+from .common import REPO, Batch, Result, canon_json, conv_tree, fl, load_corpus, raw_parse, render_doc, rng_for, parse_with
 
 
 def params_canon_py(mp):
@@ -132,6 +132,23 @@ def run(ctx):
                     if subsets:
                         one(p2, w2, t2, m, rng.choice(subsets), lab)
             res.count("siblings")
+        if i % 4 == 2:
+            # chains asked for before the text was parsed (refused), then parse() and the same requests on the same object:
+            # the chains are those of the tables, whatever was asked and refused before
+            p3 = DecFileParser.from_string(text)
+            for x in info["dec"][:3] + ["nosuchparticle"]:
+                try:
+                    p3.build_decay_chains(x)
+                except Exception:
+                    pass
+            try:
+                p3.parse()
+            except Exception:
+                p3 = None
+            if p3 is not None:
+                for m in mothers[:2]:
+                    one(p3, wire, text, m, [], "history:asked-before-parse")
+                res.count("asked_before_parse")
         # not found
         for missing in (info["stable"][0], "nosuchparticle"):
             try:
@@ -152,6 +169,31 @@ def run(ctx):
 
             batch.add(["chains", [True], wire, missing, []], on_nf)
 
+    # a particle whose table exists only through CDecay: asked for while charge-conjugate decays are disabled (no table: refused),
+    # then parsed again with them enabled - its chain, and the chains of its mothers, are those of a fresh instance
+    cc_text = ("Alias MyD0 D0\nAlias Myanti-D0 anti-D0\nChargeConj MyD0 Myanti-D0\nAlias B0sig B0\nAlias anti-B0sig anti-B0\nChargeConj B0sig anti-B0sig\n"
+               "Decay B0sig\n0.7 Myanti-D0 pi+ pi- PHSP;\n0.3 MyD0 K_S0 PHSP;\nEnddecay\nCDecay anti-B0sig\n"
+               "Decay MyD0\n0.6 K- pi+ PHSP;\n0.4 K- pi+ pi0 PHSP;\nEnddecay\nCDecay Myanti-D0\nDecay pi0\n1.0 gamma gamma PHSP;\nEnddecay\n")
+    fresh = DecFileParser.from_string(cc_text)
+    fresh.parse()
+    for asked in (["Myanti-D0"], ["anti-B0sig", "Myanti-D0"], ["B0sig"], []):
+        q = DecFileParser.from_string(cc_text)
+        parse_with(q, False)
+        for x in asked:
+            try:
+                q.build_decay_chains(x)
+            except Exception:
+                pass
+        q.parse()
+        for m in ("B0sig", "anti-B0sig", "Myanti-D0", "MyD0"):
+            got = chain_canon_py(q.build_decay_chains(m))
+            want = chain_canon_py(fresh.build_decay_chains(m))
+            res.case(canon_json([asked, m]))
+            res.count("asked_while_disabled")
+            if got != want:
+                res.violation("after a refused request (charge-conjugate decays disabled) and a new parse, the chain is not the unfolding of the tables",
+                              {"kind": "chains", "text": cc_text, "history": ["parse(include_ccdecays=False)"] + [f"build_decay_chains({x!r})" for x in asked] + ["parse()"], "mother": m},
+                              impl=got, model=want, clause="unfolding")
     # small scope, exhaustively: every document of up to three statements over a vocabulary of related names; every mother, the
     # empty stable set and every single daughter of its lines as stable set
     from . import decsmall
